@@ -90,6 +90,9 @@ package grpc
 //@   serves C11
 //@   requires sinks != nil
 //@   noframe
+//@   ensures[each-stream-gets-its-own-grpc-flag-shared-by-its-two-adapters] (ref(result0) != nil ==> fresh(as(result0, *adapter).enabled) && *as(result0, *adapter).enabled == 0) &&
+//@        (ref(result1) != nil ==> fresh(as(result1, *adapter).enabled) && *as(result1, *adapter).enabled == 0) &&
+//@        (ref(result0) != nil && ref(result1) != nil ==> as(result0, *adapter).enabled == as(result1, *adapter).enabled)
 //@   ensures[client-to-server-adapter-feeds-the-client-to-server-sink] ref(result0) != nil ==> typeis(result0, *adapter) && as(result0, *adapter).dir == h2.ClientToServer && as(result0, *adapter).sink == sinks.cToS
 //@   ensures[server-to-client-adapter-feeds-the-server-to-client-sink] ref(result1) != nil ==> typeis(result1, *adapter) && as(result1, *adapter).dir == h2.ServerToClient && as(result1, *adapter).sink == sinks.sToC
 //@ func (*adapter).isEnabled
@@ -147,6 +150,20 @@ package grpc
 //@   ensures[uncompressed-message-is-prefix-plus-payload] !(data == nil && streamEnded) && result == nil && (!e.adapter.compressed || e.adapter.encoding == Identity) ==> len(pcData) == 5 + len(data)
 //@   ensures[same-wire-format-as-the-decoder] !(data == nil && streamEnded) && result == nil && e.adapter.compressed && e.adapter.encoding != Identity ==> lastEncFmt == fmtFor(e.adapter.encoding)
 
+// adapter.Header: on a gRPC stream - enabled by these very headers or by an earlier frame in either direction - the
+// LAST grpc-encoding header of the block selects the codec of this direction.
+//@ pred encOf(v string) = ite(v == "identity", Identity, ite(v == "gzip", Gzip, ite(v == "deflate", Deflate, Snappy)))
+//@ func (*adapter).Header
+//@   serves C11
+//@   requires a != nil && a.enabled != nil && a.sink != nil && a.processor != nil
+//@   modifies *a.enabled, a.encoding, pcN, pcKind, pcSelf, pcEnd, pcHeaders, pcPrio
+//@   noframe
+//@   loop 0 invariant true
+//@   loop 1 invariant -1 <= rangeindex && rangeindex < len(headers) && *a.enabled > 0 && (forall i int :: 0 <= i && i <= rangeindex && i < len(headers) && headers[i].Name == "grpc-encoding" &&
+//@        (forall j int :: i < j && j <= rangeindex ==> headers[j].Name != "grpc-encoding") ==> a.encoding == encOf(headers[i].Value))
+//@   at call 0 of Header before assert[non-grpc-headers-go-to-the-sink-unchanged] *a.enabled <= 0 && arg0 == headers && arg1 == streamEnded && arg2 == priority
+//@   at call 1 of Header before assert[the-grpc-encoding-header-of-a-grpc-stream-selects-the-codec] *a.enabled > 0 && arg0 == headers && (forall i int :: 0 <= i && i < len(headers) && headers[i].Name == "grpc-encoding" &&
+//@        (forall j int :: i < j && j < len(headers) ==> headers[j].Name != "grpc-encoding") ==> a.encoding == encOf(headers[i].Value))
 //@ func (*emitter).Header
 //@   serves C11
 //@   requires e != nil && e.sink != nil
